@@ -2,6 +2,9 @@ module verif
 
 go 1.21
 
-require github.com/gregoryv/mq v0.0.0
+require (
+	github.com/eclipse/paho.golang v0.11.0
+	github.com/gregoryv/mq v0.0.0
+)
 
 replace github.com/gregoryv/mq => /repo
